@@ -9,6 +9,7 @@ import CC.JH.LemmasMsg
 import CC.JH.LemmasRound
 import CC.JH.LemmasGroup
 import CC.JH.Src
+import CC.JH.SrcCompressor
 namespace CC.Thm.C06
 open CC CC.Simd CC.JH CC.JH.Model CC.JH.Lemmas
 
@@ -262,5 +263,35 @@ theorem source_glue_match :
    CC.Src.src_jh_default_512, CC.Src.src_jh_update_512,
    fun M p h hn hd out => CC.Src.src_jh_finalize_into_dirty_512 M p h hn hd out, CC.Src.src_jh_reset_512,
    CC.Src.src_jh_structs⟩
+
+/-- **Source tie, round 6 (the compressor as a whole).**  `tools/inventory_hashc.py` regenerates, on every run, Lean
+    definitions from the Rust of hashes/jh/src/compressor.rs: `f8_impl` AS A WHOLE (the `X8` tuple struct,
+    `mach.unpack(state[i])`, the four `ptr::read_unaligned(data.offset(k))` loads = little-endian 16-byte loads at byte
+    offset 16k, xored into y.0..y.3; the loop `for rc in E8_BITSLICE_ROUNDCONSTANT.chunks_exact(7)` with `unroll7!`: the
+    union read `X2Bytes { bytes: rc[j] }.x2` = 32 bytes little-endian, `ss`, `l`, the `match j` that selects
+    `swap1 … swap64` as a function value, `X8(y.0, f(y.1), y.2, f(y.3), …)`; the same four loads xored into y.4..y.7; the
+    store back), the `dispatch!` wrapper `f8`, and `Compressor::{new, input, finalize}` (`transmute!` = little-endian
+    16-byte groups).  The model's `f8impl` (hence `rounds`, `roundStep`, `swapOdd`, `read128`, `rc`), `Compressor.new`,
+    `Compressor.input`, `Compressor.finalize` and the byte-level `f8` equal them.  `ss` / `l` stay calls of the kernels
+    tied by `source_kernels_match`.  Individual facts: `CC.Src.src_jh_*` (lean/CC/JH/SrcCompressor.lean). -/
+theorem source_compressor_match :
+    CC.Gen.HashCSrc.jh_hashc_errors = [] ∧
+    (f8impl = fun M y data =>
+      CC.Src.x8Of (CC.Gen.HashCSrc.jh_f8_impl M y.x0 y.x1 y.x2 y.x3 y.x4 y.x5 y.x6 y.x7 data)) ∧
+    (∀ (M : Mach) (y : X8), CC.Src.x8Of (List.foldl (CC.Gen.HashCSrc.jh_f8_impl_loop1 M) (CC.Src.x8To y)
+      (CC.Gen.HashCSrc.chunksExact 7 CC.Gen.Kernels.jh_E8_BITSLICE_ROUNDCONSTANT)) = rounds M y) ∧
+    (f8impl = fun M y data =>
+      CC.Src.x8Of (CC.Gen.HashCSrc.jh_f8 M y.x0 y.x1 y.x2 y.x3 y.x4 y.x5 y.x6 y.x7 data)) ∧
+    (Compressor.new = fun bytes => ⟨CC.Src.x8Of (CC.Gen.HashCSrc.jh_compressor_new bytes)⟩) ∧
+    (Compressor.input = fun M c data =>
+      ⟨CC.Src.x8Of (CC.Gen.HashCSrc.jh_compressor_input M c.cv.x0 c.cv.x1 c.cv.x2 c.cv.x3 c.cv.x4 c.cv.x5 c.cv.x6 c.cv.x7
+        data)⟩) ∧
+    (Compressor.finalize = fun c =>
+      CC.Gen.HashCSrc.jh_compressor_finalize c.cv.x0 c.cv.x1 c.cv.x2 c.cv.x3 c.cv.x4 c.cv.x5 c.cv.x6 c.cv.x7) ∧
+    (∀ (M : Mach) (cv blk : List (BitVec 8)), f8 M cv blk =
+      ((Compressor.new cv).input M blk).finalize) :=
+  ⟨CC.Src.src_jh_hashc_clean, CC.Src.src_jh_f8_impl, CC.Src.src_jh_rounds, CC.Src.src_jh_f8_dispatch,
+   CC.Src.src_jh_compressor_new, CC.Src.src_jh_compressor_input, CC.Src.src_jh_compressor_finalize,
+   fun _ _ _ => rfl⟩
 
 end CC.Thm.C06
